@@ -223,6 +223,9 @@ class NativeK(KBase):
     def signature(self, clause, lhs, rhs, when=True, props=None):
         pass
 
+    def signature_bool(self, clause, cond, props=None):
+        pass
+
     def unchanged(self, clause, arr, props=None):
         ok = np.array_equal(arr, self.saved[id(arr)], equal_nan=True)
         self.clauses.append((self._name(clause), bool(ok), "input array modified" if not ok else ""))
